@@ -1,11 +1,11 @@
 (* C06 -- Requests cannot escape the storage folder or touch internal files.
    Only statements; each closed by `exact` of a lemma from Proofs/, followed by Print Assumptions.
    PathGen / SyncTokGen are REGENERATED from /repo/radicale on every run. *)
-From Coq Require Import List NArith Bool.
+From Coq Require Import List NArith Bool String.
 Import ListNotations.
-Require Import RV.Lib.PyStr RV.Model.Path RV.Proofs.PathProofs RV.Proofs.C06Final.
+Require Import RV.Lib.PyStr RV.Model.Path RV.Model.Shell RV.Proofs.PathProofs RV.Proofs.ShellProofs RV.Proofs.C06Final.
 Require RV.Gen.PathGen RV.Gen.SyncTokGen.
-Open Scope N_scope.
+Open Scope list_scope. Open Scope N_scope.
 
 (* What "safe component" means, in full: non-empty, no separator, not "." or "..". *)
 Theorem C06_safe_component : forall p, PathGen.is_safe_path_component p = true <->
@@ -43,3 +43,28 @@ Theorem C06_token : forall t, SyncTokGen.check_token_name t = true ->
   List.length t = 64%nat /\ forallb is_hex t = true /\ PathGen.is_safe_filesystem_path_component t = true.
 Proof. exact c06_token. Qed.
 Print Assumptions C06_token.
+
+(* sanitize_path is idempotent (so the `assert sanitize_path(path) == path` preconditions of strip_path /
+   name_from_path hold for every path the gate hands to a handler) ... *)
+Theorem C06_sanitize_idempotent : forall s, PathGen.sanitize_path (PathGen.sanitize_path s) = PathGen.sanitize_path s.
+Proof. exact c06_sanitize_idempotent. Qed.
+Print Assumptions C06_sanitize_idempotent.
+
+(* ... and the components a handler sees are exactly the safe parts that survived. *)
+Theorem C06_comps : forall s, comps (PathGen.sanitize_path s) = safe_parts s
+  /\ Forall (fun p => PathGen.is_safe_path_component p = true) (safe_parts s).
+Proof. exact c06_comps. Qed.
+Print Assumptions C06_comps.
+
+(* Client-controlled text is never interpreted by the shell that runs the storage hook: whatever the string,
+   in any unquoted lexer state, sh reads shlex.quote(s) as exactly the characters of s appended to the current
+   word, and ends in the unquoted state (no expansion, no operator, no word split). *)
+Theorem C06_quote : forall s st, l_q st = QNone ->
+  lex_run st (shlex_quote s) = Some (mkLex (l_done st) (Some (rev s ++ cur_chars st)) QNone).
+Proof. exact shlex_quote_inert. Qed.
+Print Assumptions C06_quote.
+
+Theorem C06_hook_words : forall u p,
+  sh_words (str "hook " ++ shlex_quote u ++ [32] ++ shlex_quote p) = Some [str "hook"; u; p].
+Proof. exact hook_words. Qed.
+Print Assumptions C06_hook_words.
